@@ -5,8 +5,17 @@ import time
 from vf import common, srun
 
 
+HOLDER = {}
+
+
 def build(sc):
   from vf import bmc_models as M
+  if sc.get('kind') == 'ownership':
+    sysm = M.build_ownership_system(sc.get('variant', 'nonblocking'), sc.get('nworkers', 1))
+    v = sc.get('variant', 'nonblocking')
+    da, db = M.ownership_drivers(v)
+    drivers = {'pool_a': da, 'pool_b': db}
+    return sysm, drivers
   if sc.get('kind') == 'prefetch':
     sysm = M.build_prefetch_system(sc['items'], sc['prefetch'], sc['batch'], fail=tuple(sc['fail']) if sc.get('fail') else None, stopper=sc.get('stopper'))
     drivers = {'prefetch': M.WORKER.format(src='SRC0'), 'client': M.CLIENT_LOOP.format(bs=sc['batch'])}
@@ -54,6 +63,8 @@ def predicates(sc, sysm):
   import z3
   from vf import bmc_models as M
   pred = sc.get('pred', 'c04')
+  if pred == 'c20':
+    return (lambda enc, st: z3.Not(M.c20_ok(enc, sysm, st))), (lambda logs, params: M.c20_ok_py(logs, globals().get('_LAST_HOLDER') or {}))
   if pred == 'c15':
     return (lambda enc, st: z3.Not(M.c15_ok(enc, sysm, st))), (lambda logs, params: M.c15_ok_py(sysm.meta, logs, params))
   if pred == 'c13':
@@ -79,7 +90,11 @@ def worker(job):
   budget = 600 if tier == 'quick' else 7000
   try:
     bad_final, ok_py = predicates(sc, sysm)
-    r = B.bmc(sysm, bad_final=bad_final, depths=sc['depths'], timeout_s=budget, want_trace_of_ok=True)
+    bad_stuck = None
+    if sc.get('stuck_ok'):
+      # termination is outside this scenario's claim (see the check's docstring): blocked end states only have to satisfy the safety part
+      bad_stuck = lambda enc, st: z3.Not(M.c20_ok(enc, sysm, st, final=False))
+    r = B.bmc(sysm, bad_final=bad_final, depths=sc['depths'], timeout_s=budget, want_trace_of_ok=True, bad_stuck=bad_stuck)
   except B.Unsupported as e:
     out.update(verdict='unsupported', detail=str(e))
     return out
@@ -87,8 +102,10 @@ def worker(job):
              encoded_lines=len(sysm.meta['encoded_lines']), dropped_logging_lines=len(sysm.meta['dropped_lines']), bmc_wall=round(time.time() - t0, 1))
   out['threads'] = [p.name for p in sysm.threads]
   if r.trace is not None:
-    glue = {'mux': M.multiplex_threads, 'prefetch': M.prefetch_threads}.get(sc.get('kind'), M.queue_threads)
+    glue = {'mux': M.multiplex_threads, 'prefetch': M.prefetch_threads, 'ownership': M.ownership_threads}.get(sc.get('kind'), M.queue_threads)
     make, logs, holder = glue(sysm, r.enc, r.trace, drivers)
+    HOLDER.clear(); HOLDER.update(holder) if isinstance(holder, dict) else None
+    globals()['_LAST_HOLDER'] = holder
     try:
       rr = R.run_schedule(sysm, r.enc, r.trace, make)
       real_logs = {k: v.entries for k, v in logs.items()}
@@ -106,8 +123,11 @@ def worker(job):
         out['what'] = f"deadlock: threads {blocked_model} blocked forever at {[(n, r.trace['final'][n]['op'], r.trace['final'][n]['line']) for n in blocked_model]}; params {r.trace['params']}"
       else:
         ok, why = ok_py(logs, r.trace['params'])
-        died = [n for n, f in r.trace['final'].items() if f['died']]
-        out['reproduced'] = (not ok) or bool(rr.get('blocked'))
+        if sc.get('stuck_ok') and rr.get('blocked'):
+          ok, why = M.c20_ok_py(logs, holder, final=False)
+          out['reproduced'] = not ok
+        else:
+          out['reproduced'] = (not ok) or bool(rr.get('blocked'))
         out['what'] = f'final state violates the property on the real code: {why or "thread blocked"}; params {r.trace["params"]}; real logs {real_logs}'
     except R.Mismatch as e:
       out['replay'] = {'status': 'mismatch', 'detail': str(e)}
@@ -184,8 +204,9 @@ def replay(data):
   enc = B.Encoder(sysm)
   enc._ppset = [set(p) for p in enc.pp]
   trace = data['trace']
-  glue = {'mux': M.multiplex_threads, 'prefetch': M.prefetch_threads}.get(sc.get('kind'), M.queue_threads)
+  glue = {'mux': M.multiplex_threads, 'prefetch': M.prefetch_threads, 'ownership': M.ownership_threads}.get(sc.get('kind'), M.queue_threads)
   make, logs, holder = glue(sysm, enc, trace, drivers)
+  globals()['_LAST_HOLDER'] = holder
   try:
     rr = R.run_schedule(sysm, enc, trace, make)
   except R.Mismatch as e:
